@@ -40,8 +40,11 @@ def quiet():
 def corr_newton(res, rng, n):
     from hypnotoad.core.equilibrium import PsiContour, Point2D, SolutionError
 
-    class Stub:
-        pass
+    class Stub(PsiContour):
+        """only `psival` is set: whatever helpers refinePointNewton is split into are the real ones"""
+
+        def __init__(self):
+            pass
 
     lines, expect = [], []
     kinds = {"same": 0, "conv": 0, "fail": 0}
@@ -161,10 +164,16 @@ def corr_fillrz(res, rng, n):
         nr, nc = 2 * nx + 1, 2 * ny + 1
         mat = [[1000 * i + j + 1 for j in range(nc)] for i in range(nr)]
 
-        class Stub:
-            pass
+        class Stub(MeshRegion):
+            """a MeshRegion with only the attributes fillRZ reads; helper methods fillRZ may be split into are the real ones"""
 
-        st, er = Stub(), Stub()
+            def __init__(self):
+                pass
+
+        class ER:
+            separatrix_radial_index = 1
+
+        st, er = Stub(), ER()
         st.nx, st.ny = nx, ny
         st.contours = [[Point2D(float(v), -float(v)) for v in row] for row in mat]
         st.radialIndex = rng.randint(0, 2)
@@ -175,7 +184,13 @@ def corr_fillrz(res, rng, n):
             if pins[k] is not None:
                 lst[st.radialIndex + off] = Point2D(float(pins[k]), -float(pins[k]))
         st.equilibriumRegion = er
-        MeshRegion.fillRZ(st)
+        try:
+            MeshRegion.fillRZ(st)
+        except Exception as e:  # the real code no longer runs on the stub: a broken correspondence, not a crash of the check
+            lines.append("c01f %d %d %s %s" % (nr, nc, " ".join("-" if pins[k] is None else str(pins[k]) for k in ("sI", "sO", "eI", "eO")),
+                                               " ".join(str(v) for row in mat for v in row)))
+            expect.append("stub-failure:%s" % type(e).__name__)
+            continue
         parts = []
         for loc in ("centre", "xlow", "ylow", "corners"):
             R, Z = getattr(st.Rxy, loc), getattr(st.Zxy, loc)
